@@ -32,11 +32,11 @@ import CpModel.Gen.C15Tables
   * the clock: `Nat` ticks, `tps = 4` ticks per second (so `int()` truncation is exercised);
     a request happens at one instant (`response.time`).
 
-  Not modelled: `validate_since` (no conditional request headers are generated), header-string
-  tokenisation (`RE_HEADER_SPLIT`, `parse_header`: the harness splits plain tokens), header name
-  case folding, streaming responses that are never
-  drained, thread interleavings inside one request (anti-stampede waits are checked on the real
-  code under gates in the thorough tier), tot_* statistics.
+  * `validate_since` on a hit (`validateSince`, `finalise`: 304 / 412 built from the cached headers);
+    header-name folding (`title`, used by `hget`).
+  Header-string tokenisation (`RE_HEADER_SPLIT`, `parse_header`, `strip`) is `CpModel.CacheHdr`
+  (`parseReq` / `parsePlan` produce the `Req` / `Plan` of this file); thread interleavings are
+  `CpModel.CacheConc`.  Not modelled: tot_* statistics, `normalize_path` inside `cherrypy.url`.
 -/
 namespace CpModel.Cache
 
@@ -118,6 +118,8 @@ structure Req where
   hdrs : List (Str × Str)        -- request headers (name, value)
   pragma : List Str              -- element values of `Pragma`
   cc : List Str                  -- element values of `Cache-Control`, source order
+  ims : Str := []                -- `If-Modified-Since` ([] = absent or empty)
+  ius : Str := []                -- `If-Unmodified-Since`
   deriving Repr, DecidableEq
 
 /-- What the page handler answers if it is reached by this request. -/
@@ -129,6 +131,7 @@ structure Plan where
   stream : Bool := false         -- `response.stream`: the body is iterated by the WSGI consumer, not by finalize
   bodyOk : Bool := true          -- the handler returned and its body iterator runs to its end without raising
   drained : Bool := true         -- the client reads a streamed body to its end (no early `close()`)
+  lastMod : Str := []            -- the response's `Last-Modified` header ([] = none)
   deriving Repr, DecidableEq
 
 def sHead : Str := ['H', 'E', 'A', 'D']
@@ -140,8 +143,22 @@ def sHead : Str := ['H', 'E', 'A', 'D']
 def Plan.completes (p : Plan) (r : Req) : Bool :=
   p.bodyOk && (!p.stream || (p.drained && decide (r.method ≠ sHead)))
 
-/-- `request.headers.get(h, '')` -/
-def hget (r : Req) (h : Str) : Str := (aget r.hdrs h).getD []
+def isAsciiAlpha (c : Char) : Bool :=
+  ('a'.toNat ≤ c.toNat && c.toNat ≤ 'z'.toNat) || ('A'.toNat ≤ c.toNat && c.toNat ≤ 'Z'.toNat)
+
+def titleAux : Bool → Str → Str
+  | _, [] => []
+  | prevCased, c :: cs =>
+    if isAsciiAlpha c then (if prevCased then c.toLower else c.toUpper) :: titleAux true cs
+    else c :: titleAux false cs
+
+/-- `s.title()` (the key folding of `CaseInsensitiveDict`) for strings whose cased characters are ASCII
+    letters: header names are ASCII tokens -/
+def title (s : Str) : Str := titleAux false s
+
+/-- `request.headers.get(h, '')`: the HeaderMap folds the name (`title`); its own keys were folded when the
+    request was read (`Req.hdrs` holds folded names) -/
+def hget (r : Req) (h : Str) : Str := (aget r.hdrs (title h)).getD []
 
 structure Variant where
   gen : Nat                      -- which handler output (status, headers, body) this is
@@ -324,6 +341,56 @@ def exec (cfg : Cfg) : World → List Op → List Ev
 def runOps (cfg : Cfg) : World → List Op → World
   | w, [] => w
   | w, op :: ops => runOps cfg (step cfg w op).1 ops
+
+/-! ### conditional requests answered from the cache -/
+
+inductive Cond where
+  | serve
+  | notModified                  -- HTTPRedirect([], 304)
+  | precondFailed                -- HTTPError(412)
+  deriving Repr, DecidableEq
+
+def sGet : Str := ['G', 'E', 'T']
+
+/-- `cptools.validate_since()` as `caching.get` calls it on a hit: the response headers are the cached ones,
+    `response.status` is still unset (`valid_status` makes that 200), the values are compared as strings -/
+def validateSince (method ims ius lastMod : Str) : Cond :=
+  if lastMod = [] then .serve
+  else if ius ≠ [] ∧ ius ≠ lastMod then .precondFailed
+  else if ims ≠ [] ∧ ims = lastMod then
+    (if method = sGet ∨ method = sHead then .notModified else .precondFailed)
+  else .serve
+
+/-- what the client finally gets -/
+inductive Final where
+  | served (gen age : Nat)       -- the cached response, `Age: age`
+  | notModified (gen age : Nat)  -- 304 built from the cached headers
+  | precond (gen : Nat)          -- 412
+  | handler (gen : Nat) (cacheable : Bool)
+  | bad400
+  deriving Repr, DecidableEq
+
+/-- the event of the handler run that produced generation `g` (the stored headers are its headers) -/
+def producerOf (L : List Ev) (g : Nat) : Option Ev := L.find? fun e => e.out = .miss g true
+
+/-- the tool's answer for event `e`, given the earlier events `L`: on a hit, `validate_since` against the
+    producer's `Last-Modified` -/
+def finalise (L : List Ev) (e : Ev) : Final :=
+  match e.out with
+  | .miss g c => .handler g c
+  | .bad400 => .bad400
+  | .hit g a =>
+    match producerOf L g with
+    | none => .served g a
+    | some e' =>
+      match validateSince e.r.method e.r.ims e.r.ius e'.p.lastMod with
+      | .serve => .served g a
+      | .notModified => .notModified g a
+      | .precondFailed => .precond g
+
+def finaliseAll : List Ev → List Ev → List Final
+  | _, [] => []
+  | L, e :: es => finalise L e :: finaliseAll (L ++ [e]) es
 
 /-- number of stored responses (value slots) -/
 def countVals (store : List (Str × UriCache)) : Nat :=
